@@ -463,3 +463,7 @@ mod tests {
         assert_eq!(selection.trim().selectors(), expected);
     }
 }
+
+#[cfg(kani)]
+#[path = "/verif/kani/parquet/arrow/arrow_reader/selection/selector.rs"]
+mod verif_kani;
